@@ -205,9 +205,10 @@ func passify(p *Proc) (*passive, error) {
 // Query generation: one query per assertion.
 
 type Query struct {
-	Ob   *Obligation
-	Text string // SMT-LIB without prelude/logic header
-	Size int
+	Ob    *Obligation
+	Text  string // SMT-LIB without prelude/logic header
+	Size  int
+	Parts []*Query // for a conjunctive goal: one query per conjunct (run only if the whole fails)
 }
 
 // queries returns one query per assert command of the passive program.
@@ -251,7 +252,7 @@ func (ps *passive) queries(axioms func(terms []*Term) []string) []*Query {
 				done := false
 				for k, pc := range cmds {
 					if b.ID == tb.ID && k == ci {
-						parts = append(parts, pc.t.String())
+						parts = append(parts, "GOAL$$")
 						terms = append(terms, pc.t)
 						done = true
 						break
@@ -298,8 +299,27 @@ func (ps *passive) queries(axioms func(terms []*Term) []string) []*Query {
 					ax.WriteString("\n")
 				}
 			}
-			text := decl.String() + ax.String() + sb.String()
-			qs = append(qs, &Query{Ob: c.ob, Text: text, Size: len(text)})
+			tmpl := decl.String() + ax.String() + sb.String()
+			text := strings.Replace(tmpl, "GOAL$$", c.t.String(), 1)
+			q := &Query{Ob: c.ob, Text: text, Size: len(text)}
+			if c.t.Op == "and" && len(c.t.Args) > 1 && !c.ob.Cover {
+				for i, cj := range c.t.Args {
+					// earlier conjuncts may be assumed when proving a later one
+					goal := cj.String()
+					if i > 0 {
+						var prev []string
+						for _, pj := range c.t.Args[:i] {
+							prev = append(prev, pj.String())
+						}
+						goal = "(=> (and " + strings.Join(prev, " ") + ") " + goal + ")"
+					}
+					ob := &Obligation{Name: fmt.Sprintf("%s/c%d", c.ob.Name, i+1), Tags: c.ob.Tags, Func: c.ob.Func, Kind: c.ob.Kind, Pos: c.ob.Pos,
+						Descr: c.ob.Descr + " -- conjunct " + fmt.Sprint(i+1) + ": " + abbrev(cj.String())}
+					pt := strings.Replace(tmpl, "GOAL$$", goal, 1)
+					q.Parts = append(q.Parts, &Query{Ob: ob, Text: pt, Size: len(pt)})
+				}
+			}
+			qs = append(qs, q)
 		}
 	}
 	sort.SliceStable(qs, func(i, j int) bool { return qs[i].Ob.Name < qs[j].Ob.Name })
